@@ -10,11 +10,16 @@ git -C /repo worktree add -q --detach $W HEAD || exit 3
 trap 'git -C /repo worktree remove --force $W >/dev/null 2>&1; rm -rf $W' EXIT
 cd $W
 T=$W/target
-cp $OUT/demo.rs $DEMO_DEST 2>/dev/null || { echo "no demo.rs"; exit 3; }
+place_demo() {
+  if [[ $DEMO_DEST == append:* ]]; then cat $OUT/demo.rs >> ${DEMO_DEST#append:}; else cp $OUT/demo.rs $DEMO_DEST; fi
+}
+place_demo 2>/dev/null || { echo "no demo.rs"; exit 3; }
 name=$(basename $DEMO_DEST .rs)
-if [[ $DEMO_DEST == tests/* ]]; then DEMOCMD="cargo test --offline --target-dir $T --test $name"; else DEMOCMD="cargo test --offline --target-dir $T --lib"; fi
+if [[ $DEMO_DEST == tests/* ]]; then DEMOCMD="cargo test --offline --target-dir $T --test $name"; else DEMOCMD="cargo test --offline --target-dir $T --lib demo_seed"; fi
 echo "== demo WITHOUT patch"; $DEMOCMD 2>&1 | grep -E "^test result|error(\[|:)" | head -5
+if [[ $DEMO_DEST == append:* ]]; then git checkout -q -- .; fi
 git apply $OUT/patch.diff || { echo "PATCH DOES NOT APPLY"; exit 3; }
+if [[ $DEMO_DEST == append:* ]]; then place_demo; fi
 echo "== demo WITH patch"; $DEMOCMD 2>&1 | grep -E "^test result|error(\[|:)" | head -5
-rm -f $DEMO_DEST; git checkout -q -- . ; git apply $OUT/patch.diff
+[[ $DEMO_DEST == append:* ]] || rm -f $DEMO_DEST; git checkout -q -- . ; git apply $OUT/patch.diff
 echo "== existing suite WITH patch"; cargo test --offline --target-dir $T --no-fail-fast 2>&1 | grep -E "^test result|error(\[|:)" | head -5
